@@ -7,6 +7,7 @@ import (
 	"sort"
 	"strings"
 	"sync"
+	"sync/atomic"
 	"time"
 
 	"github.com/gmrtd/gmrtd/cms"
@@ -293,6 +294,7 @@ type sessOutcome struct {
 	exchanges                int
 	plainData                []int // per exchange: octets of response data if the exchange was unprotected, else 0
 	unauthenticatedFlip      bool  // set by C11: a bit of an unprotected response was flipped under an unchanged status
+	logWire, logPlain        string // fault-free reads: first difference between the library's own APDU log and the link record (wire level) / the chip's record of what it executed (plain level); "" = none
 	phases                   []reader.Status
 	phaseAt                  []int
 	docEx                    *document.DocumentEx
@@ -410,6 +412,7 @@ func runSession(p *perso.Passport, o sessOpt, maxLe int, faults []faultSpec, aaC
 		pass, _ = password.NewPasswordMrz(p.MRZ)
 	}
 	var docEx *document.DocumentEx
+	var apduLog *iso7816.ApduLog
 	done := make(chan struct{})
 	t0 := time.Now()
 	go func() {
@@ -421,7 +424,7 @@ func runSession(p *perso.Passport, o sessOpt, maxLe int, faults []faultSpec, aaC
 			}
 		}()
 		var err error
-		docEx, _, err = rd.ReadDocument(pass, []byte{0x3B, 0x80}, nil)
+		docEx, apduLog, err = rd.ReadDocument(pass, []byte{0x3B, 0x80}, nil)
 		if err != nil {
 			out.err = err.Error()
 		}
@@ -445,6 +448,9 @@ func runSession(p *perso.Passport, o sessOpt, maxLe int, faults []faultSpec, aaC
 	}
 	out.phases, out.phaseAt = ph.phases, ph.atEx
 	out.docEx = docEx
+	if len(faults) == 0 && apduLog != nil {
+		out.logWire, out.logPlain = logFidelity(apduLog, l, out.truth)
+	}
 	out.filesEqual = true
 	if docEx == nil {
 		return out
@@ -522,6 +528,50 @@ func runSession(p *perso.Passport, o sessOpt, maxLe int, faults []faultSpec, aaC
 		out.aaChallengeOK = n > 0 && bytes.Equal(out.truth.AaChallenges[n-1], aaChallenge) && bytes.Equal(s.ActiveAuthResult.Evidence.Nonce, aaChallenge)
 	}
 	return out
+}
+
+// logFidelity compares the library's own APDU log of a fault-free read with (wire level) the link's record of every
+// exchange, in order and byte for byte, and (plain level) with the chip's record of the commands it executed after
+// removing secure messaging: the logged plain command IS what the chip decrypted, the logged plain response what it
+// answered. The log is a trace the implementation records itself; the chip-side record is the ground truth.
+func logFidelity(log *iso7816.ApduLog, l *link.Link, truth chipsim.Truth) (wire, plain string) {
+	ex := l.Exchanges()
+	entries := log.AllEntries()
+	if len(entries) != len(ex) {
+		wire = fmt.Sprintf("%d log entries for %d exchanges on the link", len(entries), len(ex))
+	}
+	byIdx := map[int]chipsim.PlainCmd{}
+	for _, a := range truth.Accepted {
+		byIdx[a.Index] = a
+	}
+	for i := 0; i < len(entries) && i < len(ex); i++ {
+		e := entries[i]
+		tx, rx := e.Tx, e.Rx
+		if e.Child != nil {
+			tx, rx = e.Child.Tx, e.Child.Rx
+		}
+		if wire == "" && (!bytes.Equal(tx, ex[i].Cmd) || !bytes.Equal(rx, ex[i].Resp)) {
+			wire = fmt.Sprintf("entry %d (%s): logged %x / %x, on the link %x / %x", i, e.Desc, tx, rx, ex[i].Cmd, ex[i].Resp)
+		}
+		a, ok := byIdx[i]
+		if !ok || plain != "" || len(e.Tx) < 4 {
+			continue // the chip refused the command before executing it (or malformed): no plain-level record
+		}
+		if e.Tx[1] != a.INS || e.Tx[2] != a.P1 || e.Tx[3] != a.P2 {
+			plain = fmt.Sprintf("entry %d (%s): logged command %x, the chip executed %02X %02X %02X", i, e.Desc, e.Tx[:4], a.INS, a.P1, a.P2)
+			continue
+		}
+		// (a logged plain command without data and Ne > 256 is the case 2E form of known finding C17 - two Le octets
+		// without the leading 00 - which no ISO 7816-4 parser splits correctly: header only)
+		if cmd, err := chipsim.ParseCommand(e.Tx); err == nil && !(len(a.Data) == 0 && a.Ne > 256) && !bytes.Equal(cmd.Data, a.Data) {
+			plain = fmt.Sprintf("entry %d (%s): logged command data %x, the chip decrypted %x", i, e.Desc, cmd.Data, a.Data)
+			continue
+		}
+		if n := len(e.Rx); n >= 2 && (uint16(e.Rx[n-2])<<8|uint16(e.Rx[n-1]) != a.SW || n-2 != a.RespLen) {
+			plain = fmt.Sprintf("entry %d (%s): logged response of %d octets status %x, the chip answered %d octets status %04X", i, e.Desc, n-2, e.Rx[n-2:], a.RespLen, a.SW)
+		}
+	}
+	return wire, plain
 }
 
 func eqIntSlice(a, b []int) bool {
@@ -626,6 +676,7 @@ func C08(c *core.Ctx) {
 		}
 	}
 	wires := make([]wireRead, len(jobs))
+	var logNotes atomic.Int64 // reads whose own APDU log differs from the link / chip record (beyond the listed clauses: a note)
 	core.ParallelFor(len(jobs), func(ji int) {
 		j := jobs[ji]
 		cc, oo, ee := cfgs[j.i], opts[j.i], exps[j.i]
@@ -642,6 +693,12 @@ func C08(c *core.Ctx) {
 		safetyViolations(c, "C08", name, p, o, rp)
 		if o.err == "" {
 			wires[ji] = wireOf(o, cc, oo, p)
+		}
+		if o.logWire != "" || o.logPlain != "" {
+			logNotes.Add(1)
+			if logNotes.Load() <= 3 {
+				fmt.Printf("NOTE: C08: the library's APDU log differs from the link / chip record (%s): %s %s\n", name, o.logWire, o.logPlain)
+			}
 		}
 		if o.err != "" {
 			c.Violation("C08:read-fails:"+sessErrClass(o.err), fmt.Sprintf("reading a conforming chip failed (%s): %s", name, o.err), rp)
@@ -694,6 +751,7 @@ func C08(c *core.Ctx) {
 	// the chip-side command record of every completed read against the command language of Wire.tla
 	// (beyond the listed clauses of C08: a divergence is reported as a NOTE and counted, not a verdict)
 	wireValidate(c, wires)
+	c.Extra["reads_whose_apdu_log_differs_from_link_or_chip_record"] = logNotes.Load()
 	// "any per-read size the chip tolerates", along a SESSION: every file is read whatever files came before it
 	// on the same NfcSession (ReadSession.tla: the working Le is session state, nothing else is)
 	readSessionReplay(c, "C08")
